@@ -110,3 +110,27 @@ Proof.
   induction l as [|x l IH]; cbn; [constructor|]. rewrite andb_true_iff, negb_true_iff.
   intros [H1 H2]. constructor; [now apply memb_false|auto].
 Qed.
+
+(* with the base directory set up and the hierarchy a forest, the command body always runs *)
+Lemma base_set_up_layers c f : base_set_up c f = true -> is_dir f (c_layers c) = true.
+Proof.
+  unfold base_set_up. intros Hb. apply andb_true_iff in Hb as [Hb _]. apply andb_true_iff in Hb as [Hb _].
+  apply andb_true_iff in Hb as [_ Hb]. exact Hb.
+Qed.
+
+Lemma run_go e c um cmd w : layer_cmd cmd = true -> wf_table (ks_tab (w_ks w)) = true ->
+  base_set_up c (w_fs w) = true -> check_inheritance (read_layer_files c (w_fs w)) = true ->
+  exists o, normalize_order (read_layer_files c (w_fs w)) = Some o /\
+    run e c um cmd w
+    = omap Some (cmd_body e c (probe_pure c um (w_fs w) (ks_tab (w_ks w)) (read_layer_files c (w_fs w)) o) cmd (s0_of w)).
+Proof.
+  intros Hc Hwf Hb Hci. pose proof (base_set_up_layers _ _ Hb) as Hd.
+  pose proof (run_unfold e c um cmd w Hc) as R. cbv zeta in R.
+  destruct (base_set_up c (w_fs w)); [|discriminate].
+  rewrite get_layers_spec in R by exact Hwf. cbv zeta in R. cbn [s_w w_fs w_ks] in R.
+  destruct (is_dir (w_fs w) (c_layers c)); [|discriminate].
+  destruct (check_inheritance (read_layer_files c (w_fs w))) eqn:Ec; [|discriminate]. cbn [negb] in R.
+  destruct (normalize_order (read_layer_files c (w_fs w))) as [o|] eqn:En.
+  - exists o. split; [reflexivity|exact R].
+  - exfalso. now apply (normalize_total _ Ec).
+Qed.
